@@ -11,6 +11,7 @@ macro_rules! full {
             c: &CloneYes,
             g: &DbgYes,
             caps: CAPS_FULL,
+            v: None,
             name_override: None,
             conv: None,
         }));
@@ -25,6 +26,7 @@ macro_rules! full_noclone {
             c: &CloneNo,
             g: &DbgYes,
             caps: Caps { enc: true, dec: true, clone: false },
+            v: None,
             name_override: None,
             conv: None,
         }));
@@ -40,6 +42,7 @@ macro_rules! full_nodebug {
             c: &CloneYes,
             g: &DbgNo,
             caps: CAPS_FULL,
+            v: None,
             name_override: None,
             conv: None,
         }));
@@ -55,6 +58,7 @@ macro_rules! triple {
             c: &CloneYes,
             g: &DbgYes,
             caps: CAPS_FULL,
+            v: None,
             name_override: None,
             conv: Some((
                 $nenc,
@@ -74,6 +78,12 @@ macro_rules! triple {
             c: &CloneYes,
             g: &DbgYes,
             caps: Caps { enc: true, dec: false, clone: true },
+            v: Some(&ConvFns::<$enc> {
+                full_ref: |e| Box::new(Wrap::<$full> { t: <$full>::from(e), e: &EncYes, d: &DecYes, c: &CloneYes, g: &DbgYes, v: None }),
+                dec_ref: |e| Box::new(Wrap::<$dec> { t: <$dec>::from(e), e: &EncNo, d: &DecYes, c: &CloneYes, g: &DbgYes, v: None }),
+                full_val: |e| Box::new(Wrap::<$full> { t: <$full>::from(e), e: &EncYes, d: &DecYes, c: &CloneYes, g: &DbgYes, v: None }),
+                dec_val: |e| Box::new(Wrap::<$dec> { t: <$dec>::from(e), e: &EncNo, d: &DecYes, c: &CloneYes, g: &DbgYes, v: None }),
+            }),
             name_override: None,
             conv: None,
         }));
@@ -84,6 +94,7 @@ macro_rules! triple {
             c: &CloneYes,
             g: &DbgYes,
             caps: Caps { enc: false, dec: true, clone: true },
+            v: None,
             name_override: None,
             conv: Some((
                 $nenc,
